@@ -25,7 +25,7 @@ variable (lower : Str → Str) (assignG assignL : Str → List Str → Option St
 theorem inv_init : SInv lower LayerSet.default := sinv_default lower
 
 /-- one step of any of the thirteen container operations preserves the invariant -/
-theorem inv_step (hG : AssignOK lower assignG) (hL : AssignLOK lower assignL) (S : LayerSet) (op : Op)
+theorem inv_step (hG : AssignOK lower assignG) (hL : AssignLOK lower assignL valid) (S : LayerSet) (op : Op)
     (h : SInv lower S) : SInv lower (step lower assignG assignL valid S op).1 := by
   cases op with
   | insertGlyph li g =>
@@ -57,7 +57,7 @@ theorem inv_step (hG : AssignOK lower assignG) (hL : AssignLOK lower assignL) (S
 
 /-- **every reachable state satisfies the invariant**: any history of operations, from any state that
     satisfies it (a new font: `inv_init`; a loaded font: `inv_loaded`) -/
-theorem inv_reachable (hG : AssignOK lower assignG) (hL : AssignLOK lower assignL) (S : LayerSet)
+theorem inv_reachable (hG : AssignOK lower assignG) (hL : AssignLOK lower assignL valid) (S : LayerSet)
     (ops : List Op) (h : SInv lower S) : SInv lower (run lower assignG assignL valid S ops) := by
   induction ops generalizing S with
   | nil => exact h
@@ -496,7 +496,7 @@ def noPanic (S : LayerSet) : List Op → Prop
   | op :: ops => (∀ site, (step lower assignG assignL valid S op).2 ≠ .panic site) ∧
       noPanic (step lower assignG assignL valid S op).1 ops
 
-theorem sync_reachable_partial (hG : AssignOK lower assignG) (hL : AssignLOK lower assignL)
+theorem sync_reachable_partial (hG : AssignOK lower assignG) (hL : AssignLOK lower assignL valid)
     (S : LayerSet) (ops : List Op) (hS : SInv lower S) (hs : AllSync S)
     (hne : ∀ op ∈ ops, usesEntry op = false) (hp : noPanic lower assignG assignL valid S ops) :
     AllSync (run lower assignG assignL valid S ops) := by
@@ -512,7 +512,7 @@ theorem sync_reachable_partial (hG : AssignOK lower assignG) (hL : AssignLOK low
     | panic site => exact absurd hr (hp1 site)
 
 /-- corollary: after any such history, save + load returns what the containers report -/
-theorem save_load_reports_reachable (hG : AssignOK lower assignG) (hL : AssignLOK lower assignL)
+theorem save_load_reports_reachable (hG : AssignOK lower assignG) (hL : AssignLOK lower assignL valid)
     (ops : List Op) (hne : ∀ op ∈ ops, usesEntry op = false)
     (hp : noPanic lower assignG assignL valid LayerSet.default ops) :
     ∃ t S', saveTree (run lower assignG assignL valid LayerSet.default ops) = .ok t ∧
